@@ -10,7 +10,7 @@ from enc import Numbering, enc_grammar, enc_table, enc_input, tree_sexp, enc_tre
 from model import Batch
 from common import budget, BudgetExceeded, h16, chunks, seed
 
-FUEL = 100000
+FUEL = 3000
 CHART_FUEL = 200
 
 TABLES = {"LALR": parglare.LALR, "SLR": parglare.SLR}
@@ -32,14 +32,16 @@ def corpus_specs(name="parsing"):
 
 
 def small_specs(tier, rng, allow_cyclic=True, overlap_rate=3, nrand_quick=120, nrand_thorough=1500,
-                chains=True, fixed=True, fixed_quick=600, fixed_thorough=8000,
+                chains=True, chains_quick=150, chains_thorough=3000,
+                fixed=True, fixed_quick=600, fixed_thorough=8000,
                 exhaustive_quick=((1, 1, 3, 2), (2, 1, 3, 2)),
                 exhaustive_thorough=((1, 1, 3, 3), (2, 1, 3, 2), (2, 2, 3, 2), (2, 1, 4, 2))):
     specs = [s for s in corpus_specs() if allow_cyclic or not gen.is_cyclic(s.rules, s.nonterminals())]
     for n_nt, n_t, p, r in (exhaustive_quick if tier == "quick" else exhaustive_thorough):
         specs.extend(gen.enum_grammars(n_nt, n_t, p, r, allow_cyclic=allow_cyclic))
     if chains:
-        specs.extend(gen.chain_family(depth=2, sizes=(3, 4), limit=(150 if tier == "quick" else 3000)))
+        specs.extend(gen.idiom_family())
+        specs.extend(gen.chain_family(depth=2, sizes=(3, 4), limit=(chains_quick if tier == "quick" else chains_thorough)))
     if fixed:
         specs.extend(gen.fixed_stream(fixed_quick if tier == "quick" else fixed_thorough))
     n_exh = len(specs)
@@ -54,6 +56,8 @@ def small_specs(tier, rng, allow_cyclic=True, overlap_rate=3, nrand_quick=120, n
 
 
 def inputs_for(spec, maxtok, rng, layout=True, cap=400):
+    if len(spec.terms) >= 5:
+        maxtok = min(maxtok, 3)      # many terminals (chain family): sentences are short
     base = list(gen.token_strings(spec, maxtok))
     for t in getattr(spec, "corpus_inputs", []):
         if t not in base:
